@@ -17,7 +17,7 @@ PID = "C05"
 RULE = ("Hypothesis grammar over format pieces (literals with stray meta characters, known/unknown/failing/empty/"
         "nested/unterminated tags, tag+argument lengths 0..1000), both limits drawn from boundary sets and uniformly in "
         "[255,1048575], data-source outputs steered to L_ds+{-1,0,1} and totals to L_log+{-1,0,1} through env/argv "
-        "lengths; targets: message_format (file record), syslog_ident (devlog datagram), output path template. "
+        "lengths, tags much longer than their output, either order of limit and format options, caller errno 0/ERANGE/EINTR/..; targets: message_format (file record), syslog_ident (devlog datagram), output path template. "
         "non-trivial = at least 2 tags AND (an error path OR a length within 2 of a limit OR stray meta characters); "
         "distinct by (target, piece-kind sequence, which limit is approached, error kinds)")
 
@@ -38,7 +38,11 @@ def unknown_name(draw):
 
 @st.composite
 def piece(draw):
-    k = draw(st.sampled_from(["lit", "lit", "meta", "ds", "ds", "ds", "dsarg", "unknown", "fail", "nested", "empty"]))
+    k = draw(st.sampled_from(["lit", "lit", "meta", "ds", "ds", "ds", "dsarg", "unknown", "fail", "nested", "empty", "longenv"]))
+    if k == "longenv":
+        # a tag far longer than what it expands to: the FORMAT may exceed a limit that its expansion respects
+        n = draw(st.sampled_from([60, 97, 98, 99, 100, 101, 200, 250, 400]))
+        return ("tag", b"env", b"LN" + draw(st.sampled_from([b"a", b"b", b"c"])) * n)
     if k == "lit":
         return ("lit", draw(gen.text_bytes(0, 40, boundaries=(0, 1, 100, 300, 900))))
     if k == "meta":
@@ -124,8 +128,14 @@ def strategy():
             else:
                 path = b"/" + b"p" * max(0, n - 1)
         environ = [k + b"=" + v for k, v in vals.items()] + [b"A=B=c", b"X=1"]
+        for m in set(re.findall(rb"%\{env:(LN[abc]+)\}", fmt)):
+            environ.append(m + b"=" + draw(st.sampled_from([b"alice", b"", b"j42", b"v" * 30])))
+        if b"%{env:LN" in fmt and draw(st.booleans()):
+            l_log = draw(st.sampled_from([255, 256, 300, 400]))      # limit below the length of the format text itself
         c = {"target": target, "fmt": fmt, "l_ds": l_ds, "l_log": l_log, "environ": environ, "argv": argv,
-             "path": path, "steer": steer}
+             "path": path, "steer": steer,
+             # the order of the options in the file and the caller's errno at the time of the call are inputs as well
+             "limits_first": draw(st.booleans()), "pre_errno": draw(st.sampled_from([0, 0, 0, 34, 34, 4, 22, 12]))}
         if steer in ("log", "both"):
             # make the ideal total land on eff_log + delta by stretching V3 (if the format uses it) or argv
             c = stretch_to_total(draw, c, eff_ds, eff_log)
@@ -180,8 +190,9 @@ def build_cfg(c, out):
         opts += [(b"output", b"devlog"), (b"message_format", b"M"), (b"syslog_ident", c["fmt"])]
     else:
         opts += [(b"output", b"file:" + o + b"/P" + c["fmt"]), (b"message_format", b"M")]
-    opts += [(b"datasource_message_max_length", str(c["l_ds"]).encode()),
-             (b"log_message_max_length", str(c["l_log"]).encode())]
+    lim = [(b"datasource_message_max_length", str(c["l_ds"]).encode()),
+           (b"log_message_max_length", str(c["l_log"]).encode())]
+    opts = lim + opts if c.get("limits_first") else opts + lim
     return gen.render_ini(opts)
 
 
@@ -204,7 +215,7 @@ def evaluate(env, c):
         if any(len(l) > 1022 for l in ini.split(b"\n")):
             return
     ops += [drv.op("K", "devlog", out + "/devlog.sock", 1), drv.op("W", "log", out + "/log"),
-            drv.op("C", ini), drv.op_env(c["environ"]),
+            drv.op("C", ini), drv.op_env(c["environ"]), drv.op("e", c.get("pre_errno", 0)),
             # the same call twice: templates must expand from scratch every time
             drv.op_exec("e", c["path"], c["argv"], [], ret=-1, err=2), drv.op_exec("v", c["path"], c["argv"], [], ret=-1, err=2), drv.op("G")]
     res = d.scenario(ops)
@@ -289,6 +300,14 @@ def classify(c):
         cls.append("stray-meta")
     if ntags >= 2:
         cls.append("tags>=2")
+    if c.get("limits_first"):
+        cls.append("limits-before-format")
+    if c.get("pre_errno"):
+        cls.append("caller-errno-set")
+    if b"%{env:LN" in fmt:
+        cls.append("long-tag-short-output")
+        if len(fmt) > eff_log:
+            cls.append("format-text-longer-than-L_log")
     return key, cls
 
 
@@ -319,6 +338,8 @@ FIXED = [
     _fx("message", b"%{snoopy_literal:abc}|%{noop}|%{}"),                                         # stale buffer / empty name
     _fx("path", b"p%{snoopy_literal:X}"),                                                         # path template, two calls
     _fx("ident", b"id-%{env:V}", environ=[b"V=" + b"i" * 200]),
+    dict(_fx("message", b"u=%{env:LN" + b"a" * 200 + b"} j=%{env:LN" + b"b" * 200 + b"} end", l_log=255,
+             environ=[b"LN" + b"a" * 200 + b"=alice", b"LN" + b"b" * 200 + b"=j42"]), limits_first=True, pre_errno=34),
 ]
 
 
